@@ -69,6 +69,8 @@ type Unrelated struct {
 const (
 	l4OutSQL   = "SELECT &Row.* FROM t WHERE id IN ($IDs[:])"
 	l4NoOutSQL = "UPDATE t SET x = 1 WHERE id IN ($IDs[:])"
+	// the same three columns into the keys of a map (destination forms "validmap")
+	l4MapSQL = "SELECT (a, b, l) AS (&M.*) FROM t WHERE id IN ($IDs[:])"
 )
 
 // l4Case is one scripted operation (DESIGN §4 G-F / G-H, runtime layer).
@@ -300,9 +302,9 @@ func genL4(r *rng.R) *l4Case {
 	}
 	switch c.Op {
 	case "get":
-		c.Dests = r.Pick([]string{"valid", "valid", "valid", "invalid", "none", "outcome+valid", "niloutcome+valid", "outcome", "outcome+invalid"})
+		c.Dests = r.Pick([]string{"valid", "valid", "valid", "invalid", "none", "outcome+valid", "niloutcome+valid", "outcome", "outcome+invalid", "validmap"})
 	case "getall":
-		c.Dests = r.Pick([]string{"valid", "valid", "validptr", "validcap", "invalid", "none", "nonptr", "nilptr", "ptrnonslice", "sliceint", "sliceptrint"})
+		c.Dests = r.Pick([]string{"valid", "valid", "validptr", "validcap", "validmap", "invalid", "none", "nonptr", "nilptr", "ptrnonslice", "sliceint", "sliceptrint"})
 	case "iter":
 		n := 1 + r.Intn(8)
 		for i := 0; i < n; i++ {
@@ -314,6 +316,12 @@ func genL4(r *rng.R) *l4Case {
 		if c.Ctx == "marker" && c.HasOutputs && r.Chance(1, 5) {
 			c.CancelAt = r.Intn(len(c.Calls))
 		}
+	}
+	if c.Dests == "validmap" {
+		if !c.HasOutputs {
+			c.Dests = "valid"
+		}
+		c.BadRow = -1 // any value fits a map element
 	}
 	if c.HasOutputs && r.Chance(1, 8) {
 		c.FewCols = true
@@ -429,6 +437,10 @@ func runL4Case(c *l4Case) (obs *l4Obs) {
 	samples := []any{IDs{}}
 	if c.HasOutputs {
 		samples = []any{IDs{}, Row{}}
+	}
+	if c.Dests == "validmap" {
+		q = l4MapSQL
+		samples = []any{IDs{}, sqlair.M{}}
 	}
 	stmt, err := sqlair.Prepare(q, samples...)
 	if err != nil {
@@ -589,9 +601,12 @@ func runL4Case(c *l4Case) (obs *l4Obs) {
 		var nilOC *sqlair.Outcome
 		var args []any
 		withOutcome := false
+		m := sqlair.M{}
 		switch c.Dests {
 		case "valid":
 			args = []any{&row}
+		case "validmap":
+			args = []any{m}
 		case "invalid":
 			args = []any{&Unrelated{}}
 		case "none":
@@ -609,6 +624,9 @@ func runL4Case(c *l4Case) (obs *l4Obs) {
 		}
 		obs.Returns = append(obs.Returns, errText(qr.Get(args...)))
 		obs.Stored = row.A
+		if c.Dests == "validmap" {
+			obs.Stored, _ = m["a"].(int64)
+		}
 		if withOutcome {
 			if oc.Result() == nil {
 				obs.Outcome = "nil"
@@ -630,8 +648,11 @@ func runL4Case(c *l4Case) (obs *l4Obs) {
 			rows = backing[:1]
 			rows[0] = Row{A: 100, B: "prior"}
 		}
+		ms := []sqlair.M{{"a": int64(100), "b": "prior"}}
 		var args []any
 		switch c.Dests {
+		case "validmap":
+			args = []any{&ms}
 		case "valid", "validcap":
 			args = []any{&rows}
 		case "validptr":
@@ -650,7 +671,18 @@ func runL4Case(c *l4Case) (obs *l4Obs) {
 			args = []any{&rows, &[]*int{}}
 		}
 		obs.Returns = append(obs.Returns, errText(qr.GetAll(args...)))
-		if c.Dests == "validptr" {
+		if c.Dests == "validmap" {
+			obs.Prior = len(ms) >= 1 && len(ms[0]) == 2 && ms[0]["a"] == int64(100) && ms[0]["b"] == "prior"
+			for _, m := range ms[1:] {
+				id, _ := m["a"].(int64)
+				obs.Appended = append(obs.Appended, id)
+				if len(m) != 3 || m["b"] != fmt.Sprintf("r%d", id) || m["l"] != fmt.Sprintf("l%d", id) {
+					// not the row the driver delivered at this position (e.g. every element is
+					// the same map, holding the last row)
+					obs.RowsFaithful = false
+				}
+			}
+		} else if c.Dests == "validptr" {
 			obs.Prior = len(prows) >= 1 && prows[0] != nil && isPrior(*prows[0])
 			for _, r := range prows[1:] {
 				if r == nil {
